@@ -572,7 +572,8 @@ pub fn gen_spec(r: &mut Rng) -> SpriteSpec {
             let n = count as usize * tw as usize * th as usize;
             s.tilesets.push(TilesetSpec {
                 id: if r.chance(5, 6) { k as u32 } else { 10 + 3 * k as u32 },
-                flags: 2 | if r.chance(3, 4) { 4 } else { 0 } | if r.chance(1, 6) { 1 } else { 0 },
+                // 8 / 16 / 32: "match flipped tiles" modes of Aseprite 1.3 (ignored by the pinned tree)
+                flags: 2 | if r.chance(3, 4) { 4 } else { 0 } | if r.chance(1, 6) { 1 } else { 0 } | if r.chance(1, 4) { (r.below(8) as u32) << 3 } else { 0 },
                 count,
                 tw,
                 th,
